@@ -8,9 +8,9 @@
 package c18
 
 import (
-	stdnet "net"
 	"context"
 	"fmt"
+	stdnet "net"
 	"os"
 	"os/user"
 	"path/filepath"
@@ -417,7 +417,7 @@ func diffSnap(a, b []string) string {
 	return strings.Join(d, "; ")
 }
 
-var objects = []string{"proper-0700-dir", "nothing", "regular-file", "symlink-to-dir", "dir-0755", "dir-0777", "dir-with-subdir", "dir-0700-then-replaced-by-symlink", "dir-0700-owned-by-unmapped-uid"}
+var objects = []string{"proper-0700-dir", "nothing", "regular-file", "symlink-to-dir", "dir-0755", "dir-0777", "dir-with-subdir", "dir-0700-then-replaced-by-symlink", "dir-0700-owned-by-unmapped-uid", "proper-0700-dir-other-group"}
 
 func runServer(s *kernel.Sim, c *scen.Case, p params) {
 	t := s.T
@@ -470,6 +470,13 @@ func runServer(s *kernel.Sim, c *scen.Case, p params) {
 					_ = os.Mkdir(path, 0o700)
 					_ = os.Remove(path)
 					_ = os.Symlink(target, path)
+				case "proper-0700-dir-other-group":
+					// the client's own 0700 directory, its group changed to another one the client may use
+					// (setgid base directory, supplementary group): still the client's, and only the client's
+					_ = os.Mkdir(path, 0o700)
+					if err := os.Chown(path, -1, otherGid()); err != nil {
+						chownFailed = true
+					}
 				case "dir-0700-owned-by-unmapped-uid":
 					// a perfectly shaped directory whose owner has no account name (container or
 					// NFS uid, deleted account); needs root for the chown
@@ -523,7 +530,9 @@ func runServer(s *kernel.Sim, c *scen.Case, p params) {
 		} else {
 			s.Probe("improper-object-refused")
 		}
-	} else if p.Object == "proper-0700-dir" {
+	} else if p.Object == "proper-0700-dir-other-group" && chownFailed {
+		s.Probe("other-group-object-needs-root")
+	} else if p.Object == "proper-0700-dir" || p.Object == "proper-0700-dir-other-group" {
 		if serr != nil {
 			s.Violate("proper-directory-refused", p.Object, desc)
 			return
@@ -551,6 +560,16 @@ func runServer(s *kernel.Sim, c *scen.Case, p params) {
 		s.Violate("server-removed-symlink-target", p.Object, desc)
 	}
 	_ = syscall.Getuid()
+}
+
+// otherGid is a group id different from the running user's uid and primary gid.
+func otherGid() int {
+	for _, g := range []int{1, 2, 3, 100} {
+		if g != os.Getuid() && g != os.Getgid() {
+			return g
+		}
+	}
+	return 1
 }
 
 func run(s *kernel.Sim, c *scen.Case) {
